@@ -1,7 +1,7 @@
 (* C14 — proofs: every theorem is for EVERY base / left / right (strictly sorted
    dictionaries) and EVERY collision handler. *)
 From Coq Require Import NArith List Bool Lia.
-From Dolt Require Import C14.Model C14.Spec.
+From Dolt Require Import C14.Model C14.Spec C14.Corr.
 Import ListNotations.
 Local Open Scope N_scope.
 
@@ -399,3 +399,95 @@ Section Merge.
     intros lo hi c k Hok. destruct (apply_patch_lookup _ left Hl Hok) as [_ H]. rewrite H. reflexivity.
   Qed.
 End Merge.
+
+(* ------------------------------------------------------------------------- *)
+(* oracle_on_model: the executable statement of the property holds on the model's
+   own observation, for every input and every handler mode that resolves a
+   divergent delete to "deleted" or to a conflict (all modes of collide_mode). *)
+Lemma In_lookup : forall A (d : dict A) k v, sorted d -> In (k, v) d -> lookup k d = Some v.
+Proof.
+  intros A d; induction d as [|[k0 v0] d IH]; intros k v Hs Hin; [destruct Hin|].
+  destruct Hs as [Hl Hs]. cbn [lookup]. destruct Hin as [Heq|Hin].
+  - inversion Heq; subst. rewrite N.eqb_refl. reflexivity.
+  - destruct (k =? k0) eqn:E; [|apply IH; assumption].
+    apply N.eqb_eq in E; subst k0. unfold lbd in Hl. rewrite Forall_forall in Hl.
+    specialize (Hl _ Hin). cbn in Hl. lia.
+Qed.
+
+Lemma lookup_In : forall A (d : dict A) k v, lookup k d = Some v -> In (k, v) d.
+Proof.
+  intros A d; induction d as [|[k0 v0] d IH]; intros k v H; cbn [lookup] in H; [discriminate|].
+  destruct (k =? k0) eqn:E.
+  - apply N.eqb_eq in E; subst. inversion H; subst. left; reflexivity.
+  - right. apply IH, H.
+Qed.
+
+Lemma oeqb_refl : forall A (e : A -> A -> bool), (forall x, e x x = true) -> forall o, oeqb e o o = true.
+Proof. intros A e He [x|]; cbn [oeqb]; [apply He|reflexivity]. Qed.
+
+Lemma twd_eqb_refl : forall t, twd_eqb t t = true.
+Proof. intros [[o r] m]. cbn [twd_eqb]. rewrite N.eqb_refl, !opt_eqb_refl. reflexivity. Qed.
+
+Lemma triple_eqb_refl : forall t, triple_eqb t t = true.
+Proof. intros [[b l] r]. cbn [triple_eqb]. rewrite !opt_eqb_refl. reflexivity. Qed.
+
+Lemma list_eqb_refl : forall A (e : A -> A -> bool), (forall x, e x x = true) -> forall l, list_eqb e l l = true.
+Proof. intros A e He l; induction l as [|x l IH]; cbn [list_eqb]; [reflexivity|]. rewrite He, IH. reflexivity. Qed.
+
+Lemma entry_eqb_refl : forall A (e : A -> A -> bool), (forall x, e x x = true) -> forall x, entry_eqb e x x = true.
+Proof. intros A e He [k v]. unfold entry_eqb. cbn [fst snd]. rewrite N.eqb_refl, He. reflexivity. Qed.
+
+Lemma pointwise_true : forall A (e : option A -> option A -> bool) keys (d : dict A) spec,
+  sorted d -> (forall k, lookup k d = spec k) -> (forall x, e x x = true) -> pointwise e keys d spec = true.
+Proof.
+  intros A e keys d spec Hs Hl He. unfold pointwise. rewrite (sorted_sortedb _ _ Hs). cbn [andb].
+  apply forallb_forall. intros k _. rewrite Hl. apply He.
+Qed.
+
+Theorem oracle_on_model : forall i,
+  sorted (i_base i) -> sorted (i_left i) -> sorted (i_right i) ->
+  delete_resolves_to_delete (collide_mode (i_mode i)) ->
+  oracle i (model_obs i) = true.
+Proof.
+  intros i Hb Hl Hr Hd. unfold oracle, model_obs. cbn [d_ops d_calls p_res p_calls p_canon p_stream].
+  set (c := collide_mode (i_mode i)). set (B := i_base i) in *. set (L := i_left i) in *. set (R := i_right i) in *.
+  set (P := send_patches c (diff B L) (diff B R)).
+  assert (HP : sorted P) by (apply Pset_sorted; assumption).
+  assert (Hok : Forall (patch_ok c B L R) (map (fun e => PPoint (fst e) (snd e)) P)).
+  { apply Forall_forall. intros p Hin. apply in_map_iff in Hin as [[k to] [<- Hin]]. cbn [fst snd patch_ok].
+    apply In_lookup; assumption. }
+  assert (Hcov : forall k to, lookup k P = Some to -> covered (map (fun e => PPoint (fst e) (snd e)) P) k = true).
+  { intros k to H. apply lookup_In in H. unfold covered. apply existsb_exists.
+    exists (PPoint k to). split; [apply in_map_iff; exists (k, to); split; [reflexivity|exact H]|].
+    cbn [covers]. apply N.eqb_refl. }
+  rewrite pointwise_true; [|apply three_way_sorted; assumption| |apply oeqb_refl, twd_eqb_refl];
+    [|intro k; apply three_way_differ_spec; assumption].
+  rewrite pointwise_true; [|apply walk_sorted; apply diff_sorted; assumption| |apply oeqb_refl, triple_eqb_refl];
+    [|intro k; apply send_calls_spec; assumption].
+  rewrite (calls_agree B L R Hb Hl Hr). rewrite (list_eqb_refl _ triple_eqb triple_eqb_refl).
+  rewrite pointwise_true; [|apply patch_merge_sorted; assumption| |apply oeqb_refl, N.eqb_refl];
+    [|intro k; apply patch_merge_spec; assumption].
+  rewrite (range_patches_sound c B L R Hb Hl Hr _ Hok Hcov).
+  rewrite (list_eqb_refl _ (entry_eqb N.eqb)) by (intro x; apply entry_eqb_refl, N.eqb_refl).
+  cbn [andb]. rewrite andb_true_r.
+  unfold stream_okb. fold P. apply andb_true_iff. split.
+  - apply forallb_forall. intros p Hin. apply in_map_iff in Hin as [[k to] [<- Hin]].
+    cbn [fst snd patch_okb]. fold P. rewrite (In_lookup _ _ _ _ HP Hin). cbn [oo_eqb]. apply opt_eqb_refl.
+  - apply forallb_forall. intros [k to] Hin. cbn [fst]. apply (Hcov k to). apply In_lookup; assumption.
+Qed.
+
+(* every handler the generator can pick satisfies the hypothesis *)
+Lemma collide_mode_delete : forall m, delete_resolves_to_delete (collide_mode m).
+Proof.
+  intros m b l r v [H|H] E; subst; unfold collide_mode in E.
+  - destruct r as [y|]; [|discriminate].
+    destruct ((m =? 1) || (m =? 3)); [inversion E; reflexivity|].
+    destruct (m =? 4); [destruct (y mod 2 =? 0); [inversion E; reflexivity|discriminate]|discriminate].
+  - destruct l as [x|]; [|discriminate].
+    destruct ((m =? 1) || (m =? 3)); [inversion E; reflexivity|].
+    destruct (m =? 4); [destruct (x mod 2 =? 0); [inversion E; reflexivity|discriminate]|discriminate].
+Qed.
+
+Corollary oracle_on_model_all_modes : forall i,
+  sorted (i_base i) -> sorted (i_left i) -> sorted (i_right i) -> oracle i (model_obs i) = true.
+Proof. intros. apply oracle_on_model; auto using collide_mode_delete. Qed.
